@@ -25,7 +25,9 @@ PORTSETS = [[dict(form="int", pub=80, loc="")], [dict(form="pair", pub=443, loc=
             [dict(form="str", pub=80, loc="127.0.0.1:8080")], [dict(form="str", pub=22, loc="unix:/tmp/ssh.sock")],
             [dict(form="pairstr", pub=81, loc="unix:/var/run/web.sock")],
             [dict(form="int", pub=80, loc=""), dict(form="str", pub=443, loc="127.0.0.1:8443")],
-            [dict(form="pair", pub=1, loc="127.0.0.1:65535"), dict(form="int", pub=65535, loc=""), dict(form="str", pub=8, loc="localhost:9")]]
+            [dict(form="pair", pub=1, loc="127.0.0.1:65535"), dict(form="int", pub=65535, loc=""), dict(form="str", pub=8, loc="localhost:9")],
+            [dict(form="int", pub=80, loc=""), dict(form="int", pub=443, loc="")],
+            [dict(form="int", pub=8080, loc=""), dict(form="pair", pub=22, loc="127.0.0.1:2222"), dict(form="int", pub=81, loc="")]]
 CLIENTS = [[], [dict(name="alice", token="")], [dict(name="alice", token="YWxpY2VzZWNyZXQ"), dict(name="bob", token="")],
            [dict(name="carol", token="Y2Fyb2w"), dict(name="dave", token="ZGF2ZQ")]]
 
@@ -39,7 +41,9 @@ def requests(tier, seed):
             for ports in psets:
                 out.append(dict(version=version, key=dict(key), detach=detach, single=single,
                                 auth=auth_clients is not None, clients=[dict(c) for c in (auth_clients or [])],
-                                ports=[dict(p) for p in ports], reuse=False))
+                                ports=[dict(p) for p in ports], reuse=False,
+                                # local ports for int-form mappings are allocated on later reactor turns (as a real reactor does)
+                                asyncports=(len(out) % 2 == 1)))
                 if auth_clients:
                     # the same request, made with an auth object that has already served another service
                     out.append(dict(out[-1], key=dict(key), clients=[dict(c) for c in auth_clients],
